@@ -6,7 +6,7 @@ from vf.core import Unit
 
 NAME = "U-sim"
 TOOL = "sim"
-PROPS = ["C01", "C15", "C02", "C14"]
+PROPS = ["C01", "C15", "C02", "C14", "C09"]
 TRUSTED = ["vf/sim6502.py (datasheet semantics of the instructions cc6502 emits; decimal mode off)", "vf/probe driver (generate -> optimize -> check_branches -> write)",
            "expected values computed in Python from C semantics (unsigned char / 16-bit short, no overflowing signed comparisons)"]
 
@@ -133,6 +133,16 @@ def _extra():
         add("opt-knowledge", "unsigned char a, b, c;", "X = a; a++; b = a; Y = a; c = Y;", {"init": {"a": a}, "expect": {"b": (a + 1) & 255, "c": (a + 1) & 255}}, "a=%d" % a)
         add("opt-knowledge", "unsigned char a, b, j;", "j = 0; b = a; X++; if (a) j = 1;", {"init": {"a": a}, "x": 255, "expect": {"j": int(a != 0)}}, "a=%d" % a)
         add("opt-knowledge", "unsigned char a, b, j;", "j = 0; Y = a; b = 3; if (Y == 2) j = 1; if (b == 3) j += 2;", {"init": {"a": a}, "expect": {"j": int(a == 2) + 2}}, "a=%d" % a)
+    # every string literal of a program gets its own table with its own bytes (C09), wherever it stands
+    lit = g.setdefault("literal-tables", [])
+    def litprog(src, tables):
+        for name, bytes_ in tables:
+            lit.append({"source": src, "args": [], "expect": {"panic": False, "stdout_contains": "ARRAY %s size=%d = %s " % (name, len(bytes_), " ".join(str(b) for b in bytes_))}, "note": "table %s" % name})
+    litprog("unsigned char f(char *s) { return s[0]; }\nvoid main() { X = f(\"a\") + f(\"b\"); }\n", [("cctmp0", [97, 0]), ("cctmp1", [98, 0])])
+    litprog("char *a;\nunsigned char f(char *s) { return s[0]; }\nunsigned char g(char *s, unsigned char k) { return s[k]; }\nvoid main() { a = \"z\"; X = g(\"ab\", f(\"c\")) + f(\"d\"); a = \"e\"; }\n",
+            [("cctmp0", [122, 0]), ("cctmp1", [97, 98, 0]), ("cctmp2", [99, 0]), ("cctmp3", [100, 0]), ("cctmp4", [101, 0])])
+    litprog("char *a;\nvoid main() { char *p = \"two\"; a = \"three\"; }\n", [("cctmp0", [116, 119, 111, 0]), ("cctmp1", [116, 104, 114, 101, 101, 0])])
+    litprog("char *a;\nvoid main() { a = \"x\\ty\\n\"; a = (\"q\"); }\n", [("cctmp0", [120, 9, 121, 10, 0]), ("cctmp1", [113, 0])])
     # inline versus called functions (C14), registers / flags around the call
     for a in (0, 1, 7):
         for kw in ("", "inline "):
@@ -169,6 +179,9 @@ def corpus(tier):
     out = []
     for gname in sorted(groups):
         progs = groups[gname]
+        if gname == "literal-tables":
+            out.append(("literal-tables", ["C09"], progs))      # no simulation: the tables the compiler emits are compared
+            continue
         if tier != "thorough":
             progs = progs[::2] if len(progs) > 12 else progs      # quick tier: every other program of the larger groups
         o0 = [dict(p, args=["-O0"]) for p in progs]
